@@ -73,7 +73,7 @@ class YaqlEngine:
             return self.copy(options)(expression)
 
         return expressions.Statement(
-            self.parser.parse(expression, lexer=self.lexer), self)
+            self.parser.parse(expression, lexer=self.lexer.clone()), self)
 
     def copy(self, options):
         opt = dict(self._options)
